@@ -462,16 +462,20 @@ func c10Binary(env *runEnv, r *rand.Rand) {
 	}
 	users := map[string]string{"1": "pw1"}
 	type cfg struct {
-		tls bool
-		buf int
+		tls  bool
+		buf  int // send buffer
+		rbuf int // receive buffer (-1: same as the send buffer)
 	}
-	cfgs := []cfg{{true, 0}, {true, 65536}, {false, 0}, {false, 65536}}
+	cfgs := []cfg{{true, 0, -1}, {true, 65536, -1}, {false, 0, -1}, {false, 65536, -1}, {false, 0, 65536}, {false, 32768, 0}, {true, 0, 32768}}
 	for ci, c := range cfgs {
 		dir := filepath.Join(env.workdir, fmt.Sprintf("c10-%d", ci))
 		mkdirAll(dir)
 		sock := filepath.Join(dir, "a.sock")
 		gc := gwConfig{authSet: true, tlsDisable: !c.tls, hosts: []string{"127.0.0.1:3389"}, hostSelection: "any",
 			authSocket: sock, tokenAuth: bp(false), sendBuf: c.buf, recvBuf: c.buf}
+		if c.rbuf >= 0 {
+			gc.recvBuf = c.rbuf
+		}
 		if c.tls {
 			gc.auth = []string{"local"}
 			gc.certFile, gc.keyFile = selfSigned(dir)
@@ -485,6 +489,9 @@ func c10Binary(env *runEnv, r *rand.Rand) {
 			panic("C10: gateway did not start: " + g.logs())
 		}
 		name := fmt.Sprintf("tls=%v,buf=%d", c.tls, c.buf)
+		if c.rbuf >= 0 {
+			name += fmt.Sprintf(",rbuf=%d", c.rbuf)
+		}
 		// an authenticated websocket tunnel
 		tunnel := func() (tclient, string) {
 			if c.tls {
